@@ -264,9 +264,29 @@ impl Family for Diff {
         let g = Gen::new(Rng::new(rng.next()), cfg.clone());
         let (prog, tags) = g.program();
         let layout = rng.next();
+        // every other program: anonymous record types are spelled with their fields in the opposite
+        // order in function signatures (if that changes the text at all)
+        let permute = rng.chance(1, 2);
+        let plain_src = print::print_program(&prog, Some(layout));
+        print::PERMUTE_ANON_LETS.store(permute, std::sync::atomic::Ordering::Relaxed);
         let src = print::print_program(&prog, Some(layout));
+        let permuted = src != plain_src;
+        if !permuted {
+            print::PERMUTE_ANON_LETS.store(false, std::sync::atomic::Ordering::Relaxed);
+        }
+        // (the flag stays set while the case is shrunk: the shrinker prints candidates itself)
+        struct ResetFlag;
+        impl Drop for ResetFlag {
+            fn drop(&mut self) {
+                print::PERMUTE_ANON_LETS.store(false, std::sync::atomic::Ordering::Relaxed);
+            }
+        }
+        let _reset = ResetFlag;
         out.hash = hash_str(&src);
         out.tags = tags.into_iter().collect();
+        if permuted {
+            out.tags.push("anon-record-type:spelled-in-two-field-orders".into());
+        }
         // known-defect patterns are kept out of the random stream (the witnesses in
         // corpus/ still exercise them); the same predicates compute signatures
         let pats = patterns(&prog);
@@ -294,6 +314,9 @@ impl Family for Diff {
                     && crate::work::is_env_artifact(&first.msg)
                 {
                     out.skipped = Some("env:jit-relocation-out-of-range".into());
+                } else if permuted && fs.first().is_some_and(|f| f.kind == "rejected-well-typed" && f.msg.contains("Type error")) {
+                    // the documentation does not say that the two spellings are one type
+                    out.skipped = Some("unspecified:anon-record-type-in-two-field-orders-refused".into());
                 } else if let Some(first) = fs.first() {
                     // shrink, then classify
                     let class = finding_class(&first.kind).to_string();
